@@ -44,7 +44,16 @@ class C18(Prop):
     id = "C18"
     driver = "C18"
     lean_modules = ["Pfb.C18.Props"]
-    theorems = []
+    theorems = ["Pfb.C18." + t for t in [
+        "C18_exact", "C18_keeps_local", "C18_renames_together",
+        "C18_under_iff", "trap_foo_foobar", "trap_ab_abc", "C18_exact_str",
+        "C18_keeps_local_str", "C18_split_binds", "C18_as_iff", "C18_keeps_local_printed",
+        "C18_alias_wellformed_partial", "D1_witness",
+        "C18_wordReplace_spec", "C18_wordReplace_ident", "C18_ref_rewritten",
+        "C18_no_match_unchanged", "C18_first_match", "nested_order_witness",
+        "C18_fullname_components", "C18_alias_invariant", "C18_lookup_preserved", "lookup_domain_witness",
+        "D2_witness", "D3_witness", "D3b_witness",
+    ]]
     anchors = [
         ("lib/python/pyflyby/_importstmt.py", "Import.replace"),
         ("lib/python/pyflyby/_importstmt.py", "Import.split"),
@@ -56,13 +65,29 @@ class C18(Prop):
         ("lib/python/pyflyby/_importdb.py", "ImportDB._from_data"),
         ("bin/transform-imports", None),
     ]
-    quick_cases = 2500
+    quick_cases = 6000
     thorough_cases = 60000
     quick_deadline_s = 55
     thorough_deadline_s = 600
-    rule = ""
-    trusted_base = []
-    assumptions = []
+    rule = ("generated universes (package trees with character-prefix trap siblings: foo/foobar/foo_/fo, b/bc/bcd) x rename maps "
+            "(1-3 entries; nested OLDs in both orders; OLD a module, a member or a non-existent character-prefix; NEW fresh, of "
+            "any depth, possibly inside an existing package) x programs (plain / aliased / from / from-as imports, multi-alias and "
+            "parenthesised statements, two import blocks, function-level imports, references in calls, defaults, class bodies, "
+            "try blocks) x ImportFormatParams x {transform_imports, canonicalize_imports(db) incl. __forget_imports__, "
+            "bin/transform-imports}; plus correspondence-only cases with arbitrary maps (chains, swaps, OLD prefix of NEW) and an "
+            "exhaustive small scope of Import.replace / split / from_split and of the body regex; a case is non-trivial when the "
+            "output differs from the input; distinct by text+map+mode")
+    trusted_base = ["CPython's import machinery and exec: the oracle runs input and output programs in-process against synthetic "
+                    "modules registered in sys.modules, NEW names registered for the very same module objects",
+                    "stdlib ast/tokenize: which imports a text contains, where OLD occurs (program-domain validator)",
+                    "modelled, not verified: Python's re (the \\b scan is modelled in Lean and compared with re.sub on an exhaustive "
+                    "small scope and on every generated body); pretty-printing of the rewritten imports (property C11) - the "
+                    "correspondence check compares the per-block import sets and body texts, the oracle parses the printed text"]
+    assumptions = ["program domain (stated in the property): OLD is mentioned only through imports of OLD/OLD.* and references to the "
+                   "local names they bind; never after a dot, in strings/comments, or through an import of a proper prefix of OLD",
+                   "oracle domain for maps: OLDs distinct, NEWs distinct, no NEW prefix-related to another entry's OLD "
+                   "(chains/swaps are checked against the model only)",
+                   "the model's \\w is ASCII; non-ASCII text is not sent to the model (see known finding C18-D5)"]
     families = {}
 
     _tmp = None
